@@ -442,6 +442,9 @@ def run_case(c, res, pk):
                                   f"'{lab}' frame changed {what}", ctx)
                 continue
             r2 = T.feed(f)
+            if r2 == "watchdog":
+                res.inconc("wall-clock watchdog while feeding a frame to the twin")
+                return
             if r2 != "ok":
                 res.violation(f"C04:receive-loop-terminated[{c['loop']}][{lab.split('[')[0]}][twin]", f"twin loop: {r2} on '{lab}'", ctx)
                 return
